@@ -27,14 +27,17 @@
 (*   CopyUnderLock = FALSE   the value is copied after RUnlock               *)
 (*   KeyRecheck    = FALSE   the lookup trusts the table's key               *)
 (*   ReleaseLocks  = FALSE   releaseEntry does not wait for readers          *)
+(*   NxAtomic      = FALSE   a store-if-absent (used for error responses)    *)
+(*                           looks the key up first and then sets it         *)
 EXTENDS Naturals, FiniteSets, TLC
-CONSTANTS Key, Proc, Ent, Buf, MaxVer, CopyUnderLock, KeyRecheck, ReleaseLocks
+CONSTANTS Key, Proc, Ent, Buf, MaxVer, CopyUnderLock, KeyRecheck, ReleaseLocks, NxAtomic
 
 NoE == "noe"
 NoB == "nob"
 NoK == "nok"
 Junk == [k |-> NoK, n |-> 0]
 Tag == [k : Key, n : 1..MaxVer]
+Blank == [k |-> NoK, e |-> NoE, b |-> NoB, nx |-> FALSE]
 
 VARIABLES table,    \* Key -> Ent or NoE          (the otter hash map)
           ek, ev,   \* entry fields k, v
@@ -57,21 +60,23 @@ Init == /\ table = [k \in Key |-> NoE]
         /\ pend = {} /\ garb = {} /\ bg = NoE
         /\ ver = [k \in Key |-> 0]
         /\ pc = [p \in Proc |-> "idle"]
-        /\ loc = [p \in Proc |-> [k |-> NoK, e |-> NoE, b |-> NoB]]
+        /\ loc = [p \in Proc |-> Blank]
         /\ res = [p \in Proc |-> Junk]
 
 Goto(p, s) == pc' = [pc EXCEPT ![p] = s]
 RUnlock(e) == lk' = [lk EXCEPT ![e].r = @ - 1]
 
 \* ---- Store
-StoreBegin(p, k) ==
+StoreBegin(p, k, nx) ==
     /\ pc[p] = "idle" /\ ver[k] < MaxVer
-    /\ \E b \in bufFree, e \in entFree :
-         /\ bufFree' = bufFree \ {b} /\ entFree' = entFree \ {e}
-         /\ bc' = [bc EXCEPT ![b] = [k |-> k, n |-> ver[k] + 1]]
-         /\ loc' = [loc EXCEPT ![p] = [k |-> k, e |-> e, b |-> b]]
     /\ ver' = [ver EXCEPT ![k] = @ + 1]
-    /\ Goto(p, "s_lock")
+    /\ IF ~NxAtomic /\ nx /\ table[k] # NoE
+       THEN UNCHANGED <<bufFree, entFree, bc, loc, pc>>       \* variant: "present" decided here
+       ELSE /\ \E b \in bufFree, e \in entFree :
+                 /\ bufFree' = bufFree \ {b} /\ entFree' = entFree \ {e}
+                 /\ bc' = [bc EXCEPT ![b] = [k |-> k, n |-> ver[k] + 1]]
+                 /\ loc' = [loc EXCEPT ![p] = [k |-> k, e |-> e, b |-> b, nx |-> nx]]
+            /\ Goto(p, "s_lock")
     /\ UNCHANGED <<table, ek, ev, lk, pend, garb, bg, res>>
 
 StoreLock(p) ==
@@ -92,8 +97,8 @@ StoreFill(p) ==
 \* SetIfAbsent on a present key: the new entry is dropped without a listener call. It is garbage, but a lookup
 \* that still holds a pointer from the entry's previous life can lock and read it: it goes back to the model's
 \* pools (= is allocated afresh) only when nothing refers to it any more (Collect).
-StoreSet(p, nx) ==
-    LET e == loc[p].e  k == loc[p].k IN
+StoreSet(p) ==
+    LET e == loc[p].e  k == loc[p].k  nx == loc[p].nx /\ NxAtomic IN
     /\ pc[p] = "s_set"
     /\ IF nx /\ table[k] # NoE
        THEN garb' = garb \cup {e} /\ UNCHANGED <<table, pend>>
@@ -101,7 +106,7 @@ StoreSet(p, nx) ==
             /\ pend' = IF table[k] # NoE THEN pend \cup {table[k]} ELSE pend
             /\ UNCHANGED garb
     /\ Goto(p, "idle")
-    /\ loc' = [loc EXCEPT ![p] = [k |-> NoK, e |-> NoE, b |-> NoB]]
+    /\ loc' = [loc EXCEPT ![p] = Blank]
     /\ UNCHANGED <<ek, ev, entFree, bufFree, lk, bc, bg, ver, res>>
 
 Collect(e) ==
@@ -112,12 +117,12 @@ Collect(e) ==
     /\ UNCHANGED <<table, lk, bc, pend, bg, ver, pc, loc, res>>
 
 \* ---- Get
-Miss(p) == /\ Goto(p, "idle") /\ loc' = [loc EXCEPT ![p] = [k |-> NoK, e |-> NoE, b |-> NoB]]
+Miss(p) == /\ Goto(p, "idle") /\ loc' = [loc EXCEPT ![p] = Blank]
 
 GetLookup(p, k) ==
     /\ pc[p] = "idle"
     /\ IF table[k] = NoE THEN Miss(p)
-       ELSE Goto(p, "g_try") /\ loc' = [loc EXCEPT ![p] = [k |-> k, e |-> table[k], b |-> NoB]]
+       ELSE Goto(p, "g_try") /\ loc' = [loc EXCEPT ![p] = [k |-> k, e |-> table[k], b |-> NoB, nx |-> FALSE]]
     /\ UNCHANGED <<table, ek, ev, lk, entFree, bc, bufFree, pend, garb, bg, ver, res>>
 
 GetTry(p) ==
@@ -171,9 +176,9 @@ NotifyRelease ==
     /\ bg' = NoE
     /\ UNCHANGED <<table, bc, pend, garb, ver, pc, loc, res>>
 
-CodeStep(p) == StoreLock(p) \/ StoreFill(p) \/ (\E nx \in BOOLEAN : StoreSet(p, nx))
+CodeStep(p) == StoreLock(p) \/ StoreFill(p) \/ StoreSet(p)
                \/ GetTry(p) \/ GetCheck(p) \/ GetCopy(p) \/ GetDone(p)
-Next == \/ \E p \in Proc : CodeStep(p) \/ (\E k \in Key : StoreBegin(p, k) \/ GetLookup(p, k))
+Next == \/ \E p \in Proc : CodeStep(p) \/ (\E k \in Key : GetLookup(p, k) \/ \E nx \in BOOLEAN : StoreBegin(p, k, nx))
         \/ \E k \in Key : Evict(k)
         \/ \E e \in Ent : NotifyLock(e) \/ Collect(e)
         \/ NotifyRelease
@@ -203,6 +208,10 @@ Inv_BufOnce == /\ \A e1, e2 \in Ent : e1 # e2 /\ ev[e1] # NoB => ev[e1] # ev[e2]
                /\ \A p \in Proc : pc[p] \in {"s_lock", "s_fill"} => loc[p].b \notin bufFree /\ \A e \in Ent : ev[e] # loc[p].b
 \* the buffer a lookup copies from is, while it copies, the value buffer of the entry it locked
 Inv_CopySource == \A p \in Proc : pc[p] = "g_copy" => ev[loc[p].e] = loc[p].b /\ loc[p].b \notin bufFree
+
+\* C08 (last clause): a store-if-absent never replaces an entry that is in the table
+NxNeverDisplaces == [][\A p \in Proc : pc[p] = "s_set" /\ pc'[p] = "idle" /\ loc[p].nx /\ table[loc[p].k] # NoE
+                                         => table' = table]_vars
 
 \* every call returns (no lock is held for ever)
 Returns == \A p \in Proc : pc[p] # "idle" ~> pc[p] = "idle"
